@@ -87,12 +87,19 @@ def write_mc(d, consts, kf, invariants=(), properties=(), spec="Spec", export=Fa
     """consts: PolA, PolB (bits), VerA, VerB, and the scalar constants of OTRModel."""
     for f in glob.glob(os.path.join(SPEC, "*.tla")):
         shutil.copy(f, d)
-    c = dict(Setup="none", MaxSend=0, MaxFlight=2, MaxTick=0, MaxEnd=0, MaxQuery=0, MaxExtra=0,
+    prelude = list(consts.get("Prelude", []))
+    drain = bool(consts.get("PreludeDrain", False))
+    if consts.get("Setup") == "ake":
+        prelude = [dict(a="Query", p="A")] + prelude
+        drain = True
+    c = dict(MaxSend=0, MaxFlight=2, MaxTick=0, MaxEnd=0, MaxQuery=0, MaxExtra=0,
              NetMode="fifo", MaxDup=0, MaxDrop=0)
-    c.update({k: v for k, v in consts.items() if k not in ("PolA", "PolB", "VerA", "VerB")})
+    c.update({k: v for k, v in consts.items() if k not in ("PolA", "PolB", "VerA", "VerB", "Setup", "Prelude", "PreludeDrain")})
+    c["PreludeDrain"] = drain
     mc = ["---- MODULE MC ----", "EXTENDS OTRModel",
           'MCPol == [p \\in {"A","B"} |-> IF p = "A" THEN %s ELSE %s]' % (pol_rec(consts.get("PolA", 3)), pol_rec(consts.get("PolB", 3))),
           'MCVer == [p \\in {"A","B"} |-> IF p = "A" THEN %d ELSE %d]' % (consts.get("VerA", 0), consts.get("VerB", 0))]
+    mc.append("MCPrelude == <<" + ", ".join('[a |-> "%s", p |-> "%s"]' % (x["a"], x["p"]) for x in prelude) + ">>")
     if constraint:
         mc.append("MCConstraint == " + constraint)
     mc.append("====")
@@ -100,7 +107,7 @@ def write_mc(d, consts, kf, invariants=(), properties=(), spec="Spec", export=Fa
     cfg = ["SPECIFICATION " + spec, "CONSTANTS"]
     for k in KF_ALL:
         cfg.append("  %s = %s" % (k, tla_val(bool(kf.get(k, False)))))
-    cfg += ["  Pol <- MCPol", "  Ver0 <- MCVer"]
+    cfg += ["  Pol <- MCPol", "  Ver0 <- MCVer", "  Prelude <- MCPrelude"]
     for k, v in c.items():
         cfg.append("  %s = %s" % (k, tla_val(v)))
     cfg.append("  Export = %s" % tla_val(export))
